@@ -121,6 +121,16 @@ def api_statements(rep, tier="quick"):
     add(f"auto q = meters({v(5)}); out(as_raw_number(q / meters({v(1)})));")
     add(f"auto q = percent({v(50)}); out(as_raw_number(q));")
     add(f"constexpr auto q = meters({v(5)}) + meters({v(1)}); static_assert(q.in(meters) == {v(6)}, \"vf\"); out(q.in(meters));")
+    # constant evaluation of the mixed-type operations (C++14's rules for constant expressions are the narrowest: no lambdas, no
+    # non-literal temporaries)
+    add(f"constexpr auto m = max(centi(meters)({v(1)}), feet({v(1)})); constexpr auto n = min(meters({v(1)}), kilo(meters)({v(1)})); out(m.in(decltype(m)::unit)); out(n.in(decltype(n)::unit));")
+    add(f"constexpr auto c = clamp(meters({v(5)}), centi(meters)({v(1)}), kilo(meters)({v(1)})); out(c.in(decltype(c)::unit));")
+    add(f"constexpr bool b = (meters({v(1)}) < centi(meters)({v(5)})); constexpr bool e = (kilo(meters)({v(1)}) == meters({v(5)})); constexpr auto s = meters({v(1)}) + centi(meters)({v(5)}); constexpr auto d = kilo(meters)({v(1)}) - meters({v(5)}); out((int)b); out((int)e); out(s.in(decltype(s)::unit)); out(d.in(decltype(d)::unit));")
+    add(f"constexpr auto p = max(meters_pt({v(1)}), centi(meters_pt)({v(5)})); constexpr auto q = min(kilo(meters_pt)({v(1)}), meters_pt({v(5)})); constexpr bool l = (meters_pt({v(1)}) < centi(meters_pt)({v(5)})); constexpr auto d = meters_pt({v(5)}) - centi(meters_pt)({v(1)}); out(p.in(decltype(p)::unit)); out(q.in(decltype(q)::unit)); out((int)l); out(d.in(decltype(d)::unit));")
+    add(f"constexpr auto a = meters({v(5)}).as(centi(meters)); constexpr auto i = int_pow<2>(meters({v(3)})); constexpr auto z = meters({v(5)}) * seconds({v(2)}); constexpr auto w = meters({v(6)}) / {v(3)}; out(a.in(centi(meters))); out(i.in(squared(meters))); out(z.in(meters * seconds)); out(w.in(meters));")
+    add(f"constexpr auto k = celsius_pt({v(20)}).coerce_as(kelvins_pt); constexpr auto t = SPEED_OF_LIGHT.as<double>(meters / second); constexpr auto g = rep_cast<double>(meters({v(5)})); out(k.in(kelvins_pt)); out(t.in(meters / second)); out(g.in(meters));")
+    # wide character types are integral reps too: they must print as numbers whatever the standard says about streaming the bare character
+    add("std::ostringstream os; os << meters(char16_t{65}) << '|' << meters(char32_t{66}) << '|' << meters(wchar_t{67}) << '|' << meters_pt(char16_t{68}); out(os.str().c_str());")
     add(f"using Q = Quantity<Meters, {R}>; out((double)sizeof(Q)); out((int)std::is_trivially_copyable<Q>::value); out((int)(std::is_same<std::common_type_t<Q, Quantity<Feet, {R}>>::Rep, {R}>::value));")
     # operands of different reps (same unit and different units), for quantities and points: overload resolution between the
     # same-type friends, the mixed templates and (C++20) rewritten <=> candidates must not change the answer
